@@ -826,7 +826,7 @@ def rule_h(ctx):
 
 def run(ctx):
     from .common import rule_abs_tolerance
-    rule_abs_tolerance(ctx, "C04.i", [f for k in ctx.model.mod(WAS).classes.values() for f in k.methods.values()], "mass balance and reported cost must hold for masses of any magnitude")
+    rule_abs_tolerance(ctx, "C04.i", [f for mn_ in (WAS, "darsia.utils.linalg") for k in ctx.model.mod(mn_).classes.values() for f in k.methods.values()], "mass balance and reported cost must hold for masses of any magnitude")
     rule_a(ctx)
     rule_b(ctx)
     rule_f(ctx)
